@@ -110,13 +110,13 @@ Proof. exact expand_disjoint. Qed.
 Print Assumptions C10_expansion_disjoint.
 
 (* ---- 8. GetVoxelIDfromSpatialID returns [x; y; f] of every well-formed extended ID; it has no error result: fewer than five
-           fields make it panic (None), unparsable fields are read as 0 / the nearest int64 ---- *)
-Theorem C10_voxel_id_components : forall s i, parse_eid s = Some i -> voxel_id s = Some [ex i; ey i; ef i].
+           fields give the empty list, unparsable fields are read as 0 / the nearest int64 ---- *)
+Theorem C10_voxel_id_components : forall s i, parse_eid s = Some i -> voxel_id s = [ex i; ey i; ef i].
 Proof. exact voxel_id_spec. Qed.
 Print Assumptions C10_voxel_id_components.
-Theorem C10_voxel_id_panics_iff_short : forall s, voxel_id s = None <-> (length (split s) < 5)%nat.
-Proof. exact voxel_id_panics. Qed.
-Print Assumptions C10_voxel_id_panics_iff_short.
+Theorem C10_voxel_id_empty_iff_short : forall s, voxel_id s = [] <-> (length (split s) < 5)%nat.
+Proof. exact voxel_id_empty. Qed.
+Print Assumptions C10_voxel_id_empty_iff_short.
 
 (* ---- 9. the run-time checkers applied to the implementation's output decide exactly the statements above ---- *)
 Theorem C10_checker_spatial_to_extended : forall l obs, check_s2e l obs = true <-> s2e_spec l obs.
@@ -167,6 +167,9 @@ Print Assumptions C10_checker_expansion_sequence.
 Theorem C10_checker_voxel_id : forall s obs, check_voxel s obs = true <-> voxel_spec s obs.
 Proof. exact check_voxel_sound. Qed.
 Print Assumptions C10_checker_voxel_id.
+Theorem C10_voxel_id_holds_of_model : forall s, voxel_spec s (voxel_id s).
+Proof. exact voxel_model_spec. Qed.
+Print Assumptions C10_voxel_id_holds_of_model.
 
 (* ---- 10. one object reset several times: after a successful reset the object is determined by the last string alone (no stale field);
             a failed reset reports an error ---- *)
@@ -207,6 +210,6 @@ Example C10_zoom_dropping_changes_region :
   forall p, inR i p -> ~ inR (mk 3 1 1 3 7) p.
 Proof. exact e2s_changes_region_when_zooms_differ. Qed.
 Example C10_voxel_id_examples :
-  voxel_id "25/29803148/13212522/25/-7" = Some [29803148; 13212522; -7] /\
-  voxel_id "1/x/99999999999999999999/1/-99999999999999999999/9/9" = Some [0; 2 ^ 63 - 1; - 2 ^ 63] /\ voxel_id "1/2/3/4" = None.
+  voxel_id "25/29803148/13212522/25/-7" = [29803148; 13212522; -7] /\
+  voxel_id "1/x/99999999999999999999/1/-99999999999999999999/9/9" = [0; 2 ^ 63 - 1; - 2 ^ 63] /\ voxel_id "1/2/3/4" = [].
 Proof. vm_compute. repeat split; reflexivity. Qed.
